@@ -107,6 +107,10 @@ def cfg_js(tier, seed):
             if (s[0] * s[1] > 6 and ang in (30, 135)) and tier == 'quick':
                 continue
             out.append({'fn': 'smear', 'shape': list(s), 'os': 1 + (s[0] * s[1]) % 3, 'angle': ang})
+    # axis-aligned directions beyond the first quadrant and beyond one turn (a quarter turn more or less is the other axis)
+    for s in ((2, 3), (3, 2), (1, 3)):
+        for ang in (180, 270, -90, 450, 360):
+            out.append({'fn': 'smear', 'shape': list(s), 'os': 1 + (s[0] * s[1]) % 3, 'angle': ang})
     # faint and bright copies of a fixed sparse scene in the ringing regime of the kernel (negative lobes under the modulus): the
     # brightness is the symbolic input, so "every non-negative input" includes totals of 1e-12 as well as 1e+12
     for fn, shape, ext, ang in (('smear', [1, 4], '7/4', 0), ('smear', [4, 1], '3/2', 90), ('smear', [2, 4], '7/4', 0), ('smear', [1, 6], '4', 0), ('jitter', [1, 4], '2/5', 0), ('jitter', [4, 2], '1/2', 0)):
